@@ -80,6 +80,7 @@ def has_cmp(t):
 
 
 def run(ctx):
+    C.config_matrix(ctx["report"], ctx["rundir"], "C04", ["1 eur to usd", "100 eur to gbp", "1 gbp to eur", "(1 eur to usd) usd to eur", "5 eur to eur", "1 keur to eur", "1 € to eur", "1 $ to usd", "3 eur + 2 eur to eur", "1 usd to jpy", "5 km to m", "-40 degC to degF", "5 mg | kg to g | g", "3 km | m", "(250 mg | kg) * 2 kg to mg", "7 kg m | g s^2 to m | s^2"])
     rep, tier = ctx["report"], ctx["tier"]
     trees, units, ndims, n_exh = Q.build_cases(ctx, 2000 if tier == "quick" else 30000, rational_only=False)
     # the stated consequences, for every pair of same-dimension spellings in the pools
